@@ -32,6 +32,13 @@ def main(argv):
         fn = getattr(mod, "replay", None)
         if fn is None:
             from verif.tvjob import replay_file as fn
+        if rec.get("kind") == "unassemblable" and rec.get("jobfn") and rec.get("fulljob"):
+            # the emitted text could not be assembled: recompile the same job and look again
+            def fn(record):
+                modname, fname = record["jobfn"].rsplit(":", 1)
+                r = getattr(importlib.import_module(modname), fname)(dict(record["fulljob"]))
+                print("status:", r.get("status"), "complaints:", (r.get("complaints") or [])[:3])
+                return bool(r.get("complaints"))
         try:
             still = fn(rec)
         except Exception as e:  # noqa
